@@ -37,8 +37,13 @@ def reflection_binary(fcp):
     return bytes(serde.encode(rs, "Fcp", fcp.reflection()))
 
 
-def build(fcp, outdir):
-    """-> ("ok", exe) | ("generate-raised" | "compile-error" | "reflection-raised", msg)"""
+SANITIZE = ["-O1", "-g0", "-fsanitize=address,undefined", "-fno-sanitize-recover=all", "-fno-omit-frame-pointer"]
+
+
+def build(fcp, outdir, sanitize=False):
+    """-> ("ok", exe) | ("generate-raised" | "compile-error" | "reflection-raised", msg)
+    sanitize: compile the driver with ASan + UBSan (a memory error then ends the process: the command is answered "crashed")"""
+    cxx = CXX + (SANITIZE if sanitize else [])
     shutil.rmtree(outdir, ignore_errors=True)
     os.makedirs(outdir)
     st, files = generate_cpp(fcp, outdir)
@@ -56,7 +61,7 @@ def build(fcp, outdir):
         h.update(name.encode())
         h.update(re.sub(r"// Generated using fcp .*", "", files[name]).encode())
     h.update(open(DRIVER, "rb").read())
-    h.update(" ".join(CXX).encode())
+    h.update(" ".join(cxx).encode())
     key = h.hexdigest()[:32]
     os.makedirs(CACHE, exist_ok=True)
     cached = os.path.join(CACHE, key)
@@ -65,7 +70,7 @@ def build(fcp, outdir):
         shutil.copy(cached, exe)
         return "ok", exe
     shutil.copy(DRIVER, os.path.join(outdir, "cpp_driver.cpp"))
-    p = subprocess.run(CXX + ["-I", ".", "-o", "drv", "cpp_driver.cpp"], cwd=outdir, capture_output=True, text=True)
+    p = subprocess.run(cxx + ["-I", ".", "-o", "drv", "cpp_driver.cpp"], cwd=outdir, capture_output=True, text=True)
     if p.returncode != 0:
         err = [l for l in p.stderr.split("\n") if "error" in l]
         return "compile-error", (err[0] if err else p.stderr[:400])
